@@ -760,4 +760,518 @@ def inertView : Tmpl → Node
   | .frag _ => .text []
   | .comp _ => .text []
 
+
+/-! ### well-formed templates (hypothesis of the main theorems) -/
+
+def titleKidsT : List Tmpl → Bool
+  | [.text s] => clean s && s != []
+  | [.block s] => clean s && s != []
+  | _ => false
+
+mutual
+/-- `ae`: empty strings allowed; `anc`: tags of the open elements, innermost first.  Elements as in C06's
+`wfNode` (ordinary containers in any nesting the tree builder accepts, void elements, raw-text elements
+without children, `<title>` with one non-empty string), attribute lists the macro accepts, fragments and
+`<Wrap>` anywhere a `<section>` may stand. -/
+def wfT (ae : Bool) (anc : List Str) : Tmpl → Bool
+  | .text s => clean s && (ae || s != [])
+  | .block s => clean s && (ae || s != [])
+  | .elem tag attrs kids =>
+    tattrsOK attrs && nestOK tag anc &&
+      ((genericOK tag && wfTs ae (tag :: anc) kids) || (voidOK tag && kids.isEmpty) ||
+       (rawLike tag && kids.isEmpty) || (tag = tTitle && titleKidsT kids))
+  | .frag kids => wfTs ae anc kids
+  | .comp kids => nestOK sSection anc && wfTs ae (sSection :: anc) kids
+def wfTs (ae : Bool) (anc : List Str) : List Tmpl → Bool
+  | [] => true
+  | t :: ts => wfT ae anc t && wfTs ae anc ts
+end
+
+/-! ### tag facts -/
+
+theorem macroVoid_split : macroVoid = voidTags.take 10 ++ sParam :: voidTags.drop 10 := by decide
+
+theorem macroIsVoid_eq (t : Str) : macroIsVoid t = (isVoid t || t == sParam) := by
+  have h1 : macroIsVoid t = true ↔ t ∈ macroVoid := by simp [macroIsVoid]
+  have h2 : isVoid t = true ↔ t ∈ voidTags := by simp [isVoid]
+  have h3 : t ∈ macroVoid ↔ (t ∈ voidTags ∨ t = sParam) := by
+    rw [macroVoid_split]
+    conv => rhs; rw [← List.take_append_drop 10 voidTags]
+    simp only [List.mem_append, List.mem_cons]
+    constructor
+    · rintro (h | h | h)
+      · exact Or.inl (Or.inl h)
+      · exact Or.inr h
+      · exact Or.inl (Or.inr h)
+    · rintro ((h | h) | h)
+      · exact Or.inl h
+      · exact Or.inr (Or.inr h)
+      · exact Or.inr (Or.inl h)
+  cases hm : macroIsVoid t <;> cases hv : isVoid t <;> cases hp : (t == sParam) <;> simp_all
+
+theorem macroEscapes_of {t : Str} (h : escapeChildren t = true) : macroEscapes t = true := by
+  simp only [escapeChildren, rawTags, Bool.not_eq_true', List.contains_eq_mem, List.mem_cons, List.not_mem_nil,
+    or_false, decide_eq_false_iff_not, not_or] at h
+  simp [macroEscapes, macroNoEscape, h.2.1, h.2.2.1, h.2.2.2]
+
+theorem generic_facts {tag : Str} (hg : genericOK tag = true) :
+    isVoid tag = false ∧ escapeChildren tag = true ∧ macroIsVoid tag = false ∧ macroEscapes tag = true := by
+  simp only [genericOK, Bool.and_eq_true, decide_eq_true_eq, Bool.not_eq_true', bne_iff_ne, ne_eq] at hg
+  obtain ⟨⟨⟨⟨hkind, hnv⟩, hesc⟩, _⟩, _⟩ := hg
+  have hp : tag ≠ sParam := by
+    intro e; subst e; revert hkind; decide
+  refine ⟨hnv, hesc, ?_, macroEscapes_of hesc⟩
+  rw [macroIsVoid_eq, hnv]
+  simpa using hp
+
+theorem void_facts {tag : Str} (hv : voidOK tag = true) : isVoid tag = true ∧ macroIsVoid tag = true := by
+  simp only [voidOK, Bool.and_eq_true, decide_eq_true_eq] at hv
+  exact ⟨hv.1.2, by rw [macroIsVoid_eq, hv.1.2]; rfl⟩
+
+theorem raw_facts {tag : Str} (hr : rawLike tag = true) : isVoid tag = false ∧ macroIsVoid tag = false := by
+  rcases rawLike_cases hr with h | h | h | h | h <;> subst h <;> decide
+
+theorem title_facts : isVoid tTitle = false ∧ escapeChildren tTitle = true ∧ macroIsVoid tTitle = false ∧
+    macroEscapes tTitle = true ∧ rawLike tTitle = true := by decide
+
+/-! ### `consTextNode` -/
+
+def Good (X : List Node) : Prop := ∀ s R, X = .text s :: R → s ≠ []
+
+theorem good_consText (s : Str) (X : List Node) (h : Good X) : Good (consTextNode s X) := by
+  intro s1 R e
+  cases X with
+  | nil =>
+    by_cases hs : s = []
+    · simp [consTextNode, hs] at e
+    · simp only [consTextNode, hs, if_false, List.cons.injEq, Node.text.injEq] at e
+      rw [← e.1]; exact hs
+  | cons x X' =>
+    cases x with
+    | text s' =>
+      simp only [consTextNode, List.cons.injEq, Node.text.injEq] at e
+      have := h s' X' rfl
+      rw [← e.1]
+      intro hh
+      exact this (List.append_eq_nil_iff.mp hh).2
+    | elem tag attrs kids =>
+      by_cases hs : s = []
+      · simp [consTextNode, hs] at e
+      · simp only [consTextNode, hs, if_false, List.cons.injEq, Node.text.injEq] at e
+        rw [← e.1]; exact hs
+
+theorem good_inertKids : (ks : List Tmpl) → Good (inertKidsView ks)
+  | [] => by intro s R e; simp [inertKidsView] at e
+  | .text s :: ts => by simpa [inertKidsView] using good_consText s _ (good_inertKids ts)
+  | .block s :: ts => by simpa [inertKidsView] using good_consText s _ (good_inertKids ts)
+  | .elem tag attrs kids :: ts => by intro s R e; simp [inertKidsView] at e
+  | .frag _ :: ts => by simpa [inertKidsView] using good_inertKids ts
+  | .comp _ :: ts => by simpa [inertKidsView] using good_inertKids ts
+
+theorem escapeWith_append (tbl : List (Char × Str)) (a b : Str) :
+    escapeWith tbl (a ++ b) = escapeWith tbl a ++ escapeWith tbl b := by
+  induction a with
+  | nil => rfl
+  | cons c a ih => simp [escapeWith, ih]
+
+/-- position only matters for a leading string -/
+theorem kidsHtml_pos (X : List Node) (pos : Pos) (h : pos = .afterText → ∀ s R, X ≠ .text s :: R) :
+    kidsHtml true pos X = kidsHtml true .firstChild X := by
+  cases X with
+  | nil => rfl
+  | cons x X' =>
+    cases x with
+    | text s =>
+      have hp : pos ≠ .afterText := fun e => h e s X' rfl
+      simp [kidsHtml, nodeHtml, textHtml, hp]
+    | elem tag attrs kids => simp [kidsHtml, nodeHtml]
+
+theorem html_consText (s : Str) (X : List Node) (hg : Good X) :
+    kidsHtml true .firstChild (consTextNode s X) = escapeText s ++ kidsHtml true .firstChild X := by
+  cases X with
+  | nil =>
+    by_cases hs : s = []
+    · simp [consTextNode, hs, kidsHtml, escapeText, escapeWith]
+    · simp [consTextNode, hs, kidsHtml, nodeHtml, textHtml]
+  | cons x X' =>
+    cases x with
+    | text s' =>
+      have hs' : s' ≠ [] := hg s' X' rfl
+      have hss : s ++ s' ≠ [] := fun hh => hs' (List.append_eq_nil_iff.mp hh).2
+      simp [consTextNode, kidsHtml, nodeHtml, textHtml, hs', hss, escapeText, escapeWith_append, posAfter]
+    | elem tag attrs kids =>
+      by_cases hs : s = []
+      · simp [consTextNode, hs, escapeText, escapeWith]
+      · simp [consTextNode, hs, kidsHtml, nodeHtml, textHtml, posAfter]
+
+/-- markers are dropped by normalisation, so the position is irrelevant for the normal form -/
+theorem struct_pos (X : List Node) (pos pos' : Pos) (Q : List Tree) :
+    normList (structKids pos X ++ Q) = normList (structKids pos' X ++ Q) := by
+  cases X with
+  | nil => rfl
+  | cons x X' =>
+    cases x with
+    | text s =>
+      by_cases h1 : pos = .afterText <;> by_cases h2 : pos' = .afterText <;>
+        simp [structKids, structNode, h1, h2, normList, normNode, pushNorm]
+    | elem tag attrs kids => simp [structKids, structNode]
+
+theorem consText_nil (Z : List Tree) : consText [] Z = Z := by
+  cases Z with
+  | nil => rfl
+  | cons z Z' => cases z <;> simp [consText]
+
+theorem consText_consText (s s' : Str) (hs' : s' ≠ []) (Z : List Tree) :
+    consText s (consText s' Z) = consText (s ++ s') Z := by
+  cases Z with
+  | nil => simp [consText, hs']
+  | cons z Z' =>
+    cases z with
+    | text u => simp [consText]
+    | comment c => simp [consText, hs']
+    | elem t a k => simp [consText, hs']
+
+theorem normList_text (s : Str) (R : List Tree) : normList (.text s :: R) = consText s (normList R) := by
+  simp [normList, normNode, pushNorm]
+
+theorem struct_consText (s : Str) (X : List Node) (Q : List Tree) (hg : Good X) :
+    normList (structKids .firstChild (consTextNode s X) ++ Q) =
+      consText s (normList (structKids .firstChild X ++ Q)) := by
+  cases X with
+  | nil =>
+    by_cases hs : s = []
+    · simp [consTextNode, hs, structKids, consText_nil]
+    · simp [consTextNode, hs, structKids, structNode, normList_text]
+  | cons x X' =>
+    cases x with
+    | text s' =>
+      have hs' : s' ≠ [] := hg s' X' rfl
+      have hss : s ++ s' ≠ [] := fun hh => hs' (List.append_eq_nil_iff.mp hh).2
+      simp [consTextNode, structKids, structNode, hs', hss, normList_text, consText_consText s s' hs', posAfter]
+    | elem tag attrs kids =>
+      by_cases hs : s = []
+      · simp [consTextNode, hs, consText_nil]
+      · have := struct_pos (.elem tag attrs kids :: X') .afterText .firstChild Q
+        simp [consTextNode, hs, structKids, structNode, normList_text, posAfter] at this ⊢
+
+theorem wf_consText (s : Str) (X : List Node) (anc : List Str) (hs : clean s = true) (hx : wfKids anc X = true) :
+    wfKids anc (consTextNode s X) = true := by
+  cases X with
+  | nil =>
+    by_cases h : s = []
+    · simp [consTextNode, h, wfKids]
+    · simp [consTextNode, h, wfKids, wfNode, hs]
+  | cons x X' =>
+    cases x with
+    | text s' =>
+      simp only [wfKids, wfNode, Bool.and_eq_true] at hx
+      simp [consTextNode, wfKids, wfNode, clean_append, hs, hx.1, hx.2]
+    | elem tag attrs kids =>
+      by_cases h : s = []
+      · simpa [consTextNode, h] using hx
+      · have e : consTextNode s (.elem tag attrs kids :: X') = .text s :: .elem tag attrs kids :: X' := by
+          simp [consTextNode, h]
+        rw [e, wfKids, Bool.and_eq_true]
+        exact ⟨by simpa [wfNode] using hs, hx⟩
+
+
+/-! ### the inert attribute list is a well-formed tachys attribute list -/
+
+def inertNames (attrs : List TAttr) : List Str := (plainFlat (attrs.map inertAttrView)).map (·.1)
+
+theorem mem_inertNames (r : List TAttr) (hi : r.all attrInert = true) (x : Str) (hx : x ∈ inertNames r) :
+    x ∈ plainNames r ∨ (x = sClass ∧ 1 ≤ (r.filter isCls).length) ∨ (x = sStyle ∧ 1 ≤ (r.filter isStyle).length) := by
+  induction r with
+  | nil => simp [inertNames, plainFlat] at hx
+  | cons a r ih =>
+    simp only [List.all_cons, Bool.and_eq_true] at hi
+    cases a with
+    | plain d n v =>
+      simp only [inertNames, List.map_cons, inertAttrView, plainFlat, List.mem_cons] at hx
+      rcases hx with rfl | hx
+      · simp [plainNames]
+      · rcases ih hi.2 hx with h | h | h
+        · exact Or.inl (by simp [plainNames, h])
+        · exact Or.inr (Or.inl (by simpa [List.filter_cons, isCls] using h))
+        · exact Or.inr (Or.inr (by simpa [List.filter_cons, isStyle] using h))
+    | flag n =>
+      simp only [inertNames, List.map_cons, inertAttrView, plainFlat, List.mem_cons] at hx
+      rcases hx with rfl | hx
+      · simp [plainNames]
+      · rcases ih hi.2 hx with h | h | h
+        · exact Or.inl (by simp [plainNames, h])
+        · exact Or.inr (Or.inl (by simpa [List.filter_cons, isCls] using h))
+        · exact Or.inr (Or.inr (by simpa [List.filter_cons, isStyle] using h))
+    | cls d v =>
+      simp only [inertNames, List.map_cons, inertAttrView, plainFlat, List.mem_cons] at hx
+      rcases hx with rfl | hx
+      · exact Or.inr (Or.inl ⟨rfl, by simp [List.filter_cons, isCls]⟩)
+      · rcases ih hi.2 hx with h | h | h
+        · exact Or.inl (by simpa [plainNames] using h)
+        · exact Or.inr (Or.inl ⟨h.1, by simp [List.filter_cons, isCls]⟩)
+        · exact Or.inr (Or.inr (by simpa [List.filter_cons, isStyle] using h))
+    | style d v =>
+      simp only [inertNames, List.map_cons, inertAttrView, plainFlat, List.mem_cons] at hx
+      rcases hx with rfl | hx
+      · exact Or.inr (Or.inr ⟨rfl, by simp [List.filter_cons, isStyle]⟩)
+      · rcases ih hi.2 hx with h | h | h
+        · exact Or.inl (by simpa [plainNames] using h)
+        · exact Or.inr (Or.inl (by simpa [List.filter_cons, isCls] using h))
+        · exact Or.inr (Or.inr ⟨h.1, by simp [List.filter_cons, isStyle]⟩)
+    | boolDyn n b => simp [attrInert] at hi
+    | clsToggle n b => simp [attrInert] at hi
+    | clsTuple n b => simp [attrInert] at hi
+    | styleKV d n v => simp [attrInert] at hi
+
+theorem plainNameOK_not_class : plainNameOK sClass = false := by decide
+theorem plainNameOK_not_style : plainNameOK sStyle = false := by decide
+
+theorem inertNames_nodup (attrs : List TAttr) (hi : attrs.all attrInert = true) (hok : attrs.all tattrOK = true)
+    (hnd : (plainNames attrs).Nodup) (hc : (attrs.filter isCls).length ≤ 1) (hs : (attrs.filter isStyle).length ≤ 1) :
+    (inertNames attrs).Nodup := by
+  induction attrs with
+  | nil => simp [inertNames, plainFlat]
+  | cons a r ih =>
+    simp only [List.all_cons, Bool.and_eq_true] at hi hok
+    have hpn := plainNames_ok r hok.2
+    cases a with
+    | plain d n v =>
+      have hn := hok.1; simp only [tattrOK, plainNameOK, Bool.and_eq_true, bne_iff_ne, ne_eq] at hn
+      simp only [plainNames, List.nodup_cons] at hnd
+      have hc' : (r.filter isCls).length ≤ 1 := by simpa [List.filter_cons, isCls] using hc
+      have hs' : (r.filter isStyle).length ≤ 1 := by simpa [List.filter_cons, isStyle] using hs
+      have := ih hi.2 hok.2 hnd.2 hc' hs'
+      simp only [inertNames, List.map_cons, inertAttrView, plainFlat, List.nodup_cons]
+      refine ⟨?_, this⟩
+      intro hx
+      rcases mem_inertNames r hi.2 n hx with h | h | h
+      · exact hnd.1 h
+      · exact hn.1.1.2 h.1
+      · exact hn.1.2 h.1
+    | flag n =>
+      have hn := hok.1; simp only [tattrOK, plainNameOK, Bool.and_eq_true, bne_iff_ne, ne_eq] at hn
+      simp only [plainNames, List.nodup_cons] at hnd
+      have hc' : (r.filter isCls).length ≤ 1 := by simpa [List.filter_cons, isCls] using hc
+      have hs' : (r.filter isStyle).length ≤ 1 := by simpa [List.filter_cons, isStyle] using hs
+      have := ih hi.2 hok.2 hnd.2 hc' hs'
+      simp only [inertNames, List.map_cons, inertAttrView, plainFlat, List.nodup_cons]
+      refine ⟨?_, this⟩
+      intro hx
+      rcases mem_inertNames r hi.2 n hx with h | h | h
+      · exact hnd.1 h
+      · exact hn.1.2 h.1
+      · exact hn.2 h.1
+    | cls d v =>
+      simp only [plainNames] at hnd
+      have hc' : (r.filter isCls).length = 0 := by
+        simp only [List.filter_cons, isCls, if_true, List.length_cons] at hc; omega
+      have hs' : (r.filter isStyle).length ≤ 1 := by simpa [List.filter_cons, isStyle] using hs
+      have := ih hi.2 hok.2 hnd (by omega) hs'
+      simp only [inertNames, List.map_cons, inertAttrView, plainFlat, List.nodup_cons]
+      refine ⟨?_, this⟩
+      intro hx
+      rcases mem_inertNames r hi.2 sClass hx with h | h | h
+      · have := hpn sClass h; rw [plainNameOK_not_class] at this; cases this
+      · omega
+      · exact sClass_ne_sStyle h.1
+    | style d v =>
+      simp only [plainNames] at hnd
+      have hc' : (r.filter isCls).length ≤ 1 := by simpa [List.filter_cons, isCls] using hc
+      have hs' : (r.filter isStyle).length = 0 := by
+        simp only [List.filter_cons, isStyle, if_true, List.length_cons] at hs; omega
+      have := ih hi.2 hok.2 hnd hc' (by omega)
+      simp only [inertNames, List.map_cons, inertAttrView, plainFlat, List.nodup_cons]
+      refine ⟨?_, this⟩
+      intro hx
+      rcases mem_inertNames r hi.2 sStyle hx with h | h | h
+      · have := hpn sStyle h; rw [plainNameOK_not_style] at this; cases this
+      · exact sClass_ne_sStyle h.1.symm
+      · omega
+    | boolDyn n b => simp [attrInert] at hi
+    | clsToggle n b => simp [attrInert] at hi
+    | clsTuple n b => simp [attrInert] at hi
+    | styleKV d n v => simp [attrInert] at hi
+
+theorem attrClean_inert (a : TAttr) (hi : attrInert a = true) (h : tattrOK a = true) :
+    attrClean (inertAttrView a) = true := by
+  cases a <;> simp_all [tattrOK, inertAttrView, attrClean, plainNameOK, attrInert] <;> decide
+
+theorem attrsOK_inert (attrs : List TAttr) (hi : attrs.all attrInert = true) (h : tattrsOK attrs = true) :
+    attrsOK (attrs.map inertAttrView) = true := by
+  simp only [tattrsOK, Bool.and_eq_true, decide_eq_true_eq] at h
+  obtain ⟨⟨⟨hok, hnd⟩, hc⟩, hs⟩ := h
+  simp only [attrsOK, Bool.and_eq_true, decide_eq_true_eq, List.all_eq_true]
+  refine ⟨?_, ?_⟩
+  · intro b hb
+    obtain ⟨a, ha, rfl⟩ := List.mem_map.mp hb
+    exact attrClean_inert a (List.all_eq_true.mp hi a ha) (List.all_eq_true.mp hok a ha)
+  · rw [expectedAttrs_inert]
+    exact inertNames_nodup attrs hi hok hnd hc hs
+
+theorem innerBuf_inert (attrs : List TAttr) : innerBuf (attrs.map inertAttrView) = [] := by
+  induction attrs with
+  | nil => rfl
+  | cons a r ih => cases a <;> simp [inertAttrView, innerBuf, ih]
+
+
+/-! ### the inert printer against the inert view -/
+
+theorem titleKidsT_cases {kids : List Tmpl} (h : titleKidsT kids = true) :
+    ∃ s, (kids = [.text s] ∨ kids = [.block s]) ∧ clean s = true ∧ s ≠ [] := by
+  unfold titleKidsT at h
+  split at h
+  · next s => exact ⟨s, Or.inl rfl, by simpa using h⟩
+  · next s => exact ⟨s, Or.inr rfl, by simpa using h⟩
+  · cases h
+
+theorem title_wfTs {kids : List Tmpl} (h : titleKidsT kids = true) (ae : Bool) (anc : List Str) :
+    wfTs ae anc kids = true := by
+  obtain ⟨s, hk, hc, hne⟩ := titleKidsT_cases h
+  rcases hk with rfl | rfl <;> simp [wfTs, wfT, hc, hne]
+
+theorem nextChild_irrel (X : List Node) : kidsHtml true .nextChild X = kidsHtml true .firstChild X :=
+  kidsHtml_pos X .nextChild (by intro h; cases h)
+
+/-- **inert path, bytes**: the macro-time printer writes exactly what tachys writes for the inert view -/
+theorem inert_html : (ks : List Tmpl) → ∀ (anc : List Str), wfTs true anc ks = true → inertKids ks = true →
+    inertKidsHtml true ks = kidsHtml true .firstChild (inertKidsView ks)
+  | [], _, _, _ => by simp [inertKidsHtml, inertKidsView, kidsHtml]
+  | .text s :: ts, anc, hw, hi => by
+    simp only [wfTs, wfT, Bool.and_eq_true] at hw
+    simp only [inertKids, inertNode, Bool.true_and] at hi
+    rw [inertKidsView, html_consText s _ (good_inertKids ts), ← inert_html ts anc hw.2 hi]
+    simp [inertKidsHtml, inertNodeHtml]
+  | .block s :: ts, _, _, hi => by simp [inertKids, inertNode] at hi
+  | .frag k :: ts, _, _, hi => by simp [inertKids, inertNode] at hi
+  | .comp k :: ts, _, _, hi => by simp [inertKids, inertNode] at hi
+  | .elem tag attrs kids :: ts, anc, hw, hi => by
+    simp only [wfTs, wfT, Bool.and_eq_true, Bool.or_eq_true] at hw
+    obtain ⟨⟨⟨hattrs, hnest⟩, hcase⟩, hts⟩ := hw
+    simp only [inertKids, inertNode, Bool.and_eq_true] at hi
+    obtain ⟨⟨hia, hik⟩, hits⟩ := hi
+    have iht := inert_html ts anc hts hits
+    have hA := attrsHtml_inert attrs hia
+    have hI := innerBuf_inert attrs
+    have key : ∀ (facts : isVoid tag = macroIsVoid tag)
+        (body : macroIsVoid tag = false →
+          inertKidsHtml (macroEscapes tag) kids = kidsHtml (escapeChildren tag) .firstChild (inertKidsView kids)),
+        inertKidsHtml true (.elem tag attrs kids :: ts) =
+          kidsHtml true .firstChild (inertKidsView (.elem tag attrs kids :: ts)) := by
+      intro facts body
+      simp only [inertKidsView, inertKidsHtml, inertNodeHtml, kidsHtml, nodeHtml, posAfter, hA, hI, nextChild_irrel,
+        ← iht, facts, if_true]
+      cases hv : macroIsVoid tag
+      · simp [body hv]
+      · simp
+    rcases hcase with ((⟨hg, hkids⟩ | ⟨hv, hempty⟩) | ⟨hraw, hempty⟩) | ⟨htitle, htk⟩
+    · obtain ⟨f1, f2, f3, f4⟩ := generic_facts hg
+      have ihk := inert_html kids (tag :: anc) hkids hik
+      exact key (by rw [f1, f3]) (fun _ => by rw [f2, f4]; exact ihk)
+    · obtain ⟨f1, f2⟩ := void_facts hv
+      exact key (by rw [f1, f2]) (fun h => by rw [f2] at h; cases h)
+    · have hk : kids = [] := by cases kids <;> simp_all
+      subst hk
+      obtain ⟨f1, f2⟩ := raw_facts hraw
+      exact key (by rw [f1, f2]) (fun _ => by simp [inertKidsHtml, inertKidsView, kidsHtml])
+    · simp only [decide_eq_true_eq] at htitle
+      subst htitle
+      obtain ⟨f1, f2, f3, f4, _⟩ := title_facts
+      have ihk := inert_html kids (tTitle :: anc) (title_wfTs htk true _) hik
+      exact key (by rw [f1, f3]) (fun _ => by rw [f2, f4]; exact ihk)
+
+/-- **inert path, meaning**: the structure of the inert view normalises to what the template denotes -/
+theorem inert_struct : (ks : List Tmpl) → ∀ (anc : List Str), wfTs true anc ks = true → inertKids ks = true →
+    ∀ Q : List Tree, normList (structKids .firstChild (inertKidsView ks) ++ Q) = denKs ks (normList Q)
+  | [], _, _, _ => by intro Q; simp [inertKidsView, structKids, denKs]
+  | .text s :: ts, anc, hw, hi => by
+    intro Q
+    simp only [wfTs, wfT, Bool.and_eq_true] at hw
+    simp only [inertKids, inertNode, Bool.true_and] at hi
+    rw [inertKidsView, struct_consText s _ Q (good_inertKids ts), inert_struct ts anc hw.2 hi Q]
+    simp [denKs, denK]
+  | .block s :: ts, _, _, hi => by simp [inertKids, inertNode] at hi
+  | .frag k :: ts, _, _, hi => by simp [inertKids, inertNode] at hi
+  | .comp k :: ts, _, _, hi => by simp [inertKids, inertNode] at hi
+  | .elem tag attrs kids :: ts, anc, hw, hi => by
+    intro Q
+    simp only [wfTs, wfT, Bool.and_eq_true, Bool.or_eq_true] at hw
+    obtain ⟨⟨⟨hattrs, hnest⟩, hcase⟩, hts⟩ := hw
+    simp only [inertKids, inertNode, Bool.and_eq_true] at hi
+    obtain ⟨⟨hia, hik⟩, hits⟩ := hi
+    have iht := inert_struct ts anc hts hits Q
+    have hI := innerBuf_inert attrs
+    have hN := normAttrs_inert attrs hia hattrs
+    have htail := struct_pos (inertKidsView ts) .nextChild .firstChild Q
+    have key : ∀ (facts : isVoid tag = macroIsVoid tag)
+        (body : macroIsVoid tag = false →
+          normList (if escapeChildren tag = true then structKids .firstChild (inertKidsView kids)
+                    else textTree (rawText (inertKidsView kids))) = denKs kids []),
+        normList (structKids .firstChild (inertKidsView (.elem tag attrs kids :: ts)) ++ Q) =
+          denKs (.elem tag attrs kids :: ts) (normList Q) := by
+      intro facts body
+      simp only [inertKidsView, structKids, structNode, posAfter, hI, if_true, List.cons_append, List.nil_append,
+        normList, normNode, pushNorm, hN, htail, iht, denKs, denK, facts]
+      cases hv : macroIsVoid tag
+      · have := body hv
+        simp only [Bool.false_eq_true, if_false] at this ⊢
+        rw [this]
+      · simp [normList]
+    rcases hcase with ((⟨hg, hkids⟩ | ⟨hv, hempty⟩) | ⟨hraw, hempty⟩) | ⟨htitle, htk⟩
+    · obtain ⟨f1, f2, f3, f4⟩ := generic_facts hg
+      have ihk := inert_struct kids (tag :: anc) hkids hik []
+      exact key (by rw [f1, f3]) (fun _ => by simpa [f2, normList] using ihk)
+    · obtain ⟨f1, f2⟩ := void_facts hv
+      exact key (by rw [f1, f2]) (fun h => by rw [f2] at h; cases h)
+    · have hk : kids = [] := by cases kids <;> simp_all
+      subst hk
+      obtain ⟨f1, f2⟩ := raw_facts hraw
+      exact key (by rw [f1, f2]) (fun _ => by
+        cases escapeChildren tag <;> simp [inertKidsView, structKids, rawText, textTree, normList, denKs])
+    · simp only [decide_eq_true_eq] at htitle
+      subst htitle
+      obtain ⟨f1, f2, f3, f4, _⟩ := title_facts
+      have ihk := inert_struct kids (tTitle :: anc) (title_wfTs htk true _) hik []
+      exact key (by rw [f1, f3]) (fun _ => by simpa [f2, normList] using ihk)
+
+theorem title_inertKids {kids : List Tmpl} (h : titleKidsT kids = true) (hi : inertKids kids = true) :
+    titleKids (inertKidsView kids) = true := by
+  obtain ⟨s, hk, hc, hne⟩ := titleKidsT_cases h
+  rcases hk with rfl | rfl
+  · simp [inertKidsView, consTextNode, hne, titleKids, hc]
+  · simp [inertKids, inertNode] at hi
+
+/-- **inert path, well-formedness**: the inert view is inside C06's proved class -/
+theorem inert_wf : (ks : List Tmpl) → ∀ (anc : List Str), wfTs true anc ks = true → inertKids ks = true →
+    wfKids anc (inertKidsView ks) = true
+  | [], _, _, _ => by simp [inertKidsView, wfKids]
+  | .text s :: ts, anc, hw, hi => by
+    simp only [wfTs, wfT, Bool.and_eq_true] at hw
+    simp only [inertKids, inertNode, Bool.true_and] at hi
+    rw [inertKidsView]
+    exact wf_consText s _ anc hw.1.1 (inert_wf ts anc hw.2 hi)
+  | .block s :: ts, _, _, hi => by simp [inertKids, inertNode] at hi
+  | .frag k :: ts, _, _, hi => by simp [inertKids, inertNode] at hi
+  | .comp k :: ts, _, _, hi => by simp [inertKids, inertNode] at hi
+  | .elem tag attrs kids :: ts, anc, hw, hi => by
+    simp only [wfTs, wfT, Bool.and_eq_true, Bool.or_eq_true] at hw
+    obtain ⟨⟨⟨hattrs, hnest⟩, hcase⟩, hts⟩ := hw
+    simp only [inertKids, inertNode, Bool.and_eq_true] at hi
+    obtain ⟨⟨hia, hik⟩, hits⟩ := hi
+    have iht := inert_wf ts anc hts hits
+    have hA := attrsOK_inert attrs hia hattrs
+    simp only [inertKidsView, wfKids, wfNode, Bool.and_eq_true, Bool.or_eq_true, hA, hnest, iht, true_and, and_true]
+    rcases hcase with ((⟨hg, hkids⟩ | ⟨hv, hempty⟩) | ⟨hraw, hempty⟩) | ⟨htitle, htk⟩
+    · obtain ⟨f1, f2, f3, f4⟩ := generic_facts hg
+      have ihk := inert_wf kids (tag :: anc) hkids hik
+      exact Or.inl (Or.inl (Or.inl ⟨hg, by simpa [f3] using ihk⟩))
+    · obtain ⟨f1, f2⟩ := void_facts hv
+      exact Or.inl (Or.inl (Or.inr ⟨hv, by simp [f2]⟩))
+    · have hk : kids = [] := by cases kids <;> simp_all
+      subst hk
+      exact Or.inl (Or.inr ⟨hraw, by simp [inertKidsView]⟩)
+    · simp only [decide_eq_true_eq] at htitle
+      subst htitle
+      obtain ⟨f1, f2, f3, f4, _⟩ := title_facts
+      exact Or.inr ⟨by simp, by simpa [f3] using title_inertKids htk hik⟩
+
 end Leptos.Macro
